@@ -20,7 +20,8 @@
     _simplify_parts(_helper)
 
   The model describes the code AFTER the `fix:` commits of branch fix-expr (total structural sort key, Sum.simplify
-  superset branch); see known_findings.jsonl.
+  superset branch) and of fix-expr5 (Sum.simplify leaves a sum alone when several children of the joint share a base
+  variable); see known_findings.jsonl.
 
   Conventions.  `frozenset` fields (Sum.ranges, interventions) are lists kept sorted and duplicate free; Python set
   iteration order never matters for the modelled functions except where noted.  Well-formedness (`Expr.wf`) collects
